@@ -46,6 +46,7 @@ def _first_diff(a, b, path=""):
 
 class StoreModel:
     def __init__(self, name, setup, alphabet, max_objs, consumer, seed=0):
+        self._pc, self._kc = {}, {}
         self.name, self.setup, self.max_objs, self.consumer = name, tuple(setup), max_objs, consumer
         self.alphabet = list(alphabet)
         random.Random(seed).shuffle(self.alphabet)
@@ -72,6 +73,16 @@ class StoreModel:
         w.shared.append((name, side, m))
         return m
 
+    def _loc(self, w, loc):
+        for n, sd, m in w.shared:
+            if n == loc and sd == "loc":
+                return m
+        spec = L.LOCS[loc]
+        d = spec["d"]
+        m = R.location_record(L.LDM_LAT + d[0], L.LDM_LON + d[1], L.LDM_ALT + d[2], ell=spec.get("ell", (0, 0, 0)))
+        w.shared.append((loc, "loc", m))
+        return m
+
     def enabled(self, w):
         out = []
         for ev in self.alphabet:
@@ -83,11 +94,17 @@ class StoreModel:
         return out
 
     # -- canonical keys, cached (per reference record / per real record object within one transition) ---------------------
+    def _okey(self, obj, fn=ckey):
+        """Key of an object that is shared between snapshots and never mutated (reference-side messages/locations)."""
+        hit = self._pc.get((id(obj), fn))
+        if hit is None or hit[0] is not obj:
+            hit = self._pc[(id(obj), fn)] = (obj, fn(obj))
+        return hit[1]
+
     def _rkey(self, r):
-        k = r.cache.get("key")
-        if k is None:
-            k = r.cache["key"] = ckey(r.record())
-        return k
+        # same shape as ckey(r.record()), assembled from cached component keys
+        return ("d", ("application_id", r.app), ("dataObject", self._okey(r.content)), ("location", self._okey(r.loc)),
+                ("timeValidity", r.validity), ("timestamp", r.ts))
 
     def _ikey(self, rec):
         hit = self._kc.get(id(rec))
@@ -97,7 +114,7 @@ class StoreModel:
 
     def share(self, w):
         """Message dictionaries are never mutated in place (an update replaces them), so snapshots share them."""
-        return w.shared
+        return [m for (_n, _s, m) in w.shared]
 
     # -- one transition: real call + reference step ------------------------------------------------------------------
     def apply(self, w, ev):
@@ -136,7 +153,7 @@ class StoreModel:
                 if registered:
                     spec = L.LOCS[loc]
                     d = spec["d"]
-                    locrec = R.location_record(L.LDM_LAT + d[0], L.LDM_LON + d[1], L.LDM_ALT + d[2], ell=spec.get("ell", (0, 0, 0)))
+                    locrec = self._loc(w, loc)
                     ref.add(got, app, L.its_ms(now), locrec, loc, self._msg(w, mname, "ref"), validity, now, spec["inside"])
                 w.ids.append(got)
         elif op in ("upd", "del"):
@@ -320,12 +337,13 @@ class StoreModel:
             base = L.its_ms(now)
             items = []
             for oid, rec in sorted(db.database.items()):
-                items.append((oid, rec["timestamp"] - base, self._ikey(rec)))
+                k = self._ikey(rec)
+                items.append((oid, rec["timestamp"] - base, tuple(x for x in k if not (isinstance(x, tuple) and x and x[0] == "timestamp"))))
             real = (tuple(items), db._next_id, tuple(sorted(s.data_provider_its_aid)), tuple(sorted(s.data_consumer_its_aid)),
                     min(round(now - m.last_trash_collection_time, 3), 1.0), m.new_data_recieved_flag)
         except Exception:  # noqa: BLE001 - refactored tree: fall back to the generic digest (finer, still sound)
             real = ("generic", X.generic_canon(w.ldm), int(now))
-        rc = list(w.ref.canon(now))
+        rc = list(w.ref.canon(now, digest=lambda c: self._okey(c, R._digest)))
         rc[2] = tuple(t if t[1] == "gone" else t[:4] + (max(t[4], -1),) + t[5:] for t in rc[2])
         return (real, frac, tuple(rc), tuple(w.ids))
 
@@ -376,14 +394,42 @@ def _model_for(part_name, tier="quick", seed=0):
     raise KeyError(part_name)
 
 
+def _job(args):
+    pname, fargs, prefix, depth = args
+    return pname, X.bfs(_mk(*fargs), depth, prefix=prefix, xcheck_every=97)
+
+
+def explore_parts(plist, seed, split):
+    """All parts in ONE process pool: the tree below every distinct state at depth `split` is one job (states are
+    de-duplicated globally up to the split depth and inside each job below it; duplicates across jobs cost time only)."""
+    import multiprocessing as mp
+    results, jobs = {}, []
+    for p in plist:
+        fargs = (p["name"], p["setup"], p["alphabet"], p["max_objs"], p["consumer"], seed)
+        model = _mk(*fargs)
+        sd = min(split, p["depth"])
+        head = X.bfs(model, sd, xcheck_every=97)
+        head.complete, head.cap_hit = True, None
+        results[p["name"]] = head
+        if p["depth"] > sd:
+            jobs += [(p["name"], fargs, pre, p["depth"]) for pre in X._prefixes(model, sd)]
+    jobs.sort(key=lambda j: (len(j[1][2]), repr(j[2])), reverse=True)      # long alphabets first (better balance)
+    if jobs:
+        with mp.Pool(16) as pool:
+            for pname, r in pool.imap_unordered(_job, jobs, chunksize=1):
+                results[pname].merge(r)
+    return results
+
+
 def run(ctx):
     states = trans = xchecks = pruned = 0
     digests, samples, caps = [], [], []
     outcomes = set()
     complete = True
-    for p in parts(ctx.tier):
-        r = X.parallel_bfs(_mk, (p["name"], p["setup"], p["alphabet"], p["max_objs"], p["consumer"], ctx.seed), p["depth"], split_depth=1,
-                           xcheck_every=97)
+    plist = parts(ctx.tier)
+    results = explore_parts(plist, ctx.seed, 2 if ctx.tier == "quick" else 3)
+    for p in plist:
+        r = results[p["name"]]
         states += r.states
         trans += r.transitions
         xchecks += r.xchecks
